@@ -402,6 +402,9 @@ func c04Judge(c *mon.Ctx, in *c04Case) {
 	// ---- sign through the library
 	tx := s.BuildShared()
 	signed := s.Clone()
+	// an option value prepared BEFORE the input is signed (a caller's option list built once per
+	// input): WithTx names the transaction object, what the object holds when Execute runs counts
+	prepared := interpreter.WithTx(tx, i, &bt.Output{Satoshis: s.Ins[i].PrevSats, LockingScript: bscript.NewFromBytes(append([]byte{}, s.Ins[i].PrevScript...))})
 	if in.Via != "FillAllInputs" && in.MutSeed%3 == 0 {
 		// The object has a history: an earlier state of it (one more input, of a
 		// kind the signer does not support, and another lock time) went through a
@@ -543,6 +546,31 @@ func c04Judge(c *mon.Ctx, in *c04Case) {
 		c.Count("fresh-accepted:kind:" + kind)
 	}
 	c.Distinct(prng.HashBytes([]byte("fresh"), signed.Build().ExtendedBytes(), []byte{byte(i), t}))
+	if !(!forkid && t&0x1f == 3 && i >= len(s.Outs)) {
+		fl := uint32(scriptflag.UTXOAfterGenesis)
+		if forkid {
+			fl |= uint32(scriptflag.EnableSighashForkID)
+		}
+		exec := func() (accepted, ok bool) {
+			var err error
+			opts := append([]interpreter.ExecutionOptionFunc{prepared}, flagOptions(fl, i+len(s.Outs))...)
+			ok = c.Try("interpreter.Engine.Execute", func() { err = theEngine(c).Execute(opts...) })
+			return err == nil, ok
+		}
+		if acc, ok := exec(); ok && !acc {
+			c.Violationf("C04:fresh-rejected:option-prepared-before-signing:"+tn, "input %d signed by %s with %s is rejected when Execute is given a WithTx option value made before the input was signed; signed tx(ext)=%s", i, in.Via, tn, hexShort(tx.ExtendedBytes()))
+		} else if ok {
+			c.Count("prepared-option:fresh-accepted")
+			// ... and the same option value once more after the owner changed the lock time in place (every hash type commits to it)
+			tx.LockTime ^= 1
+			if acc, ok := exec(); ok && acc {
+				c.Violationf("C04:mutant-accepted:locktime-changed-in-place:option-value-reused:"+tn, "after signing, tx.LockTime was changed in place and the WithTx option value used before was passed to Execute again: still accepted; input %d, %s", i, tn)
+			} else if ok {
+				c.Count("prepared-option:in-place-change-rejected")
+			}
+			tx.LockTime ^= 1
+		}
+	}
 	bug0 := !forkid && t&0x1f == 3 && i >= len(s.Outs)
 	if bug0 {
 		c.Count("legacy-single-without-output:signed")
@@ -978,6 +1006,9 @@ func init() {
 	p.Floor = func(a *mon.Agg) string {
 		if a.Cov["model:validated"] == 0 {
 			return "the reference model was not validated against the node vectors"
+		}
+		if a.Cov["prepared-option:fresh-accepted"] == 0 || a.Cov["prepared-option:in-place-change-rejected"] == 0 {
+			return "no execution through an option value prepared before signing"
 		}
 		for _, t := range c04Types {
 			tn := c04TypeName(t)
